@@ -75,19 +75,19 @@ class Groups(BaseDictObject):
     representationFactories = {
     "defcon.groups.kerningSide1Groups" : dict(
         factory=kerningSide1GroupsRepresentationFactory,
-        destructiveNotifications=("Groups.Changed")
+        destructiveNotifications=("Groups.GroupSet", "Groups.GroupDeleted", "Groups.Cleared", "Groups.Updated", "Groups.Changed")
     ),
     "defcon.groups.kerningSide2Groups" : dict(
         factory=kerningSide2GroupsRepresentationFactory,
-        destructiveNotifications=("Groups.Changed")
+        destructiveNotifications=("Groups.GroupSet", "Groups.GroupDeleted", "Groups.Cleared", "Groups.Updated", "Groups.Changed")
     ),
     "defcon.groups.kerningGlyphToSide1Group" : dict(
         factory=glyphToKerningSide1GroupsRepresentationFactory,
-        destructiveNotifications=("Groups.Changed")
+        destructiveNotifications=("Groups.GroupSet", "Groups.GroupDeleted", "Groups.Cleared", "Groups.Updated", "Groups.Changed")
     ),
     "defcon.groups.kerningGlyphToSide2Group" : dict(
         factory=glyphToKerningSide2GroupsRepresentationFactory,
-        destructiveNotifications=("Groups.Changed")
+        destructiveNotifications=("Groups.GroupSet", "Groups.GroupDeleted", "Groups.Cleared", "Groups.Updated", "Groups.Changed")
     ),
 }
 
